@@ -409,7 +409,8 @@ impl OpBuilder {
                 push(Op::FillColor { color: Color::Other(args.collect()) });
             }
             "sh"  => {
-
+                names!(args, name);
+                push(Op::Shade { name });
             }
             "T*"  => push(Op::TextNewline),
             "Tc"  => push(Op::CharSpacing { char_space: number(&mut args)? }),
